@@ -91,6 +91,7 @@ public:
 
 private:
   void OnTermChange(EntityUID target);
+  void ResolveTerms(const VectorOfEntities& ordered);
 };
 
 //! Text concept iterator
